@@ -6,7 +6,7 @@ from core import BaseProp, Verdict
 from proto import T
 
 RULE = ('random operator-word-free tables and trees over their keys and over multi-word unknown keys (depth <= 4, arity 2-4, WITH '
-        'pairs, same-operator nesting), taken as built and after simplify / dedup / combine_expressions; Spec on the real code: '
+        'pairs, same-operator nesting), taken as built and after simplify / dedup / combine_expressions (one case in eight: combine_expressions over operand *texts* in any letter case, read by the simple tokenizer, over a table of one-word keys); Spec on the real code: '
         'parse(str(e)) has the structure, operand order and symbols of e and renders to the same text; the readable rendering '
         're-parses to e; render(template) equals the default rendering with every key replaced by the template applied to it, also for templates that give the empty text for some licenses. '
         'The renderings are asked in varying order on the same object (default first; readable first; renderings of a derived expression first). '
@@ -30,7 +30,24 @@ class PartialTemplate(str):
 
 
 class Prop(BaseProp):
+    def case_strings(self, rng):
+        """combine_expressions over *strings* (read with the simple tokenizer): a table of one-word keys, the operands written
+        as texts in any letter case"""
+        table = gen.gen_table(rng, allow_op=False, aliases=False, single_word=True)
+        keys = [k for k, _, _ in table] + ['u1', 'Zq9']
+        parts = [gen.gen_tree(rng, keys, depth=rng.randint(0, 2), maxar=3, flags=False) for _ in range(rng.randint(1, 3))]
+
+        def text(t):
+            if t[0] == 'sym':
+                return gen.recase(rng, t[1])
+            if t[0] == 'with':
+                return gen.recase(rng, t[1]) + ' with ' + gen.recase(rng, t[3])
+            return '(' + (' %s ' % t[0]).join(text(x) for x in t[1:]) + ')'
+        return {'table': table, 'tree': parts[0], 'texts': [text(t) for t in parts], 'via': 'combine-strings', 'tmpl': rng.randrange(len(TEMPLATES)), 'order': 0}
+
     def case_random(self, rng):
+        if rng.random() < 0.12:
+            return self.case_strings(rng)
         table = gen.gen_table(rng, allow_op=False, aliases=False)
         keys = [k for k, _, _ in table]
         flags = {k: ex for k, _, ex in table}
@@ -50,8 +67,16 @@ class Prop(BaseProp):
     def eval_case(self, drv, case):
         table, tree = case['table'], case['tree']
         lic = P.licensing(table)
-        e = impl.build_tree(tree, lic.AND, lic.OR)
         via = case['via']
+        if via == 'combine-strings':
+            if not all(impl.lower_is_charwise(t) for t in case['texts']):
+                return Verdict('skip', case)
+            try:
+                e = impl.le.combine_expressions(list(case['texts']), rng_op(case), licensing=lic)
+            except impl.le.ExpressionError:
+                return Verdict('skip', case)
+        else:
+            e = impl.build_tree(tree, lic.AND, lic.OR)
         if via == 'simplify':
             e = e.simplify()
         elif via == 'dedup':
